@@ -299,7 +299,7 @@ func RunQuery(tmpdir, name, query string, timeoutS int, order []string) SolverRe
 			first := ""
 			for _, ln := range strings.Split(txt, "\n") {
 				ln = strings.TrimSpace(ln)
-				if ln == "" {
+				if ln == "" || strings.HasPrefix(ln, "WARNING") || strings.HasPrefix(ln, "(warning") {
 					continue
 				}
 				first = ln
